@@ -1069,6 +1069,19 @@ def check_state_limit_writers(ctx, rep, pid):
             lo, hi = count_between(fa, s2[0], bal[0], {site[0]})
             rep.ob(pid + '.R1', fn, 'limit-resampled-on-every-state-change', (lo, hi) == (1, 1),
                    'state_limit stores between the current_state store and the limit evaluation: min %s max %s' % (lo, hi))
+    # the sampled state is entered: it is stored, for the machine's own runtime, on every path that goes on to evaluate the limits
+    csn = [(pe, v, site) for (pe, v, site) in field_stores(fa, 'current_state', 'MachineRuntime') if next_state_payload(v)]
+    rep.count_floor(pid + '.R1', 'stores of the sampled state to current_state in transition', len(csn), 1)
+    bal2 = [b for (b, f, a, t) in calls(fa) if callee_str(f).endswith('::below_action_limits')]
+    sls = [site[0] for (pe, v, site) in sl]
+    if csn and sls:
+        # the limit store (reached only on the change edge, see above) is preceded by the state store on every path
+        for lb in sls:
+            ok = any(fa.cfg.dominates(site[0], lb) for (pe, v, site) in csn)
+            rep.ob(pid + '.R1', fn, 'state-stored-before-limit-resampled', ok, 'the store of the sampled state dominates the limit store')
+    for (pe, v, site) in csn:
+        idx = base_of(unload(pe))
+        rep.ob(pid + '.R1', fn, 'state-stored-for-own-machine', idx is not None and idx[0] == 'idx' and idx[2] == ('param', 2) and is_field(idx[1], 'runtime'), show(pe))
     # the store of a regular next state
     for (pe, v, site) in field_stores(fa, 'current_state', 'MachineRuntime'):
         if next_state_payload(v):
@@ -1079,6 +1092,20 @@ def check_state_limit_writers(ctx, rep, pid):
     fn = F['decrement_limit']
     fa = an.get(fn)
     pf = an.paths(fn)
+    rep.count_floor(pid + '.R1', 'decrements of state_limit in decrement_limit', len(field_stores(fa, 'state_limit', 'MachineRuntime')), 1)
+    # the completed action is counted before the limit is tested: the LimitReached test (has_limit) is preceded by the decrement on
+    # every path where the limit was positive
+    hl = [b for (b, f, a, t) in calls(fa) if callee_str(f).endswith('::has_limit')]
+    dec = [site[0] for (pe, v, site) in field_stores(fa, 'state_limit', 'MachineRuntime')]
+    for hb in hl:
+        for S in an.paths(fn, history=True, record_stores=lambda pe, val: is_field(pe, 'state_limit', 'MachineRuntime'), tag='dec').at_entry(hb):
+            positive = cmp_int_true(S, 'lt', lambda l: is_const(l, 0), lambda r: is_field(r, 'state_limit', 'MachineRuntime')) or \
+                cmp_int_true(S, 'ne', lambda l: is_field(l, 'state_limit', 'MachineRuntime'), lambda r: is_const(r, 0))
+            stored = any(f[0] == 'stored' for f in S)
+            zero_before = cmp_int_true(S, 'eq', lambda l: is_field(l, 'state_limit', 'MachineRuntime'), lambda r: is_const(r, 0)) or \
+                has_cmp(S, 'lt', lambda l: is_const(l, 0), lambda r: is_field(r, 'state_limit', 'MachineRuntime'), False)
+            rep.ob(pid + '.R1', fn, 'limit-test-follows-the-decrement', stored or zero_before or not positive,
+                   'on every path to the LimitReached test a positive limit was decremented' + ('' if (stored or zero_before or not positive) else '; witness ' + show_facts(S)))
     for (pe, v, site) in field_stores(fa, 'state_limit', 'MachineRuntime'):
         okv = v[0] == 'bin' and v[1] == 'Sub' and is_field(v[2], 'state_limit', 'MachineRuntime') and is_const(v[3], 1)
         # `x = x.saturating_sub(1)` is `if x > 0 { x -= 1 }`
